@@ -661,6 +661,132 @@ out:
     vnacal_free(vcp);
 }
 
+/* ---- R5: vector standards inside the solver --------------------------- */
+/*
+ * One-port T8 calibration on 7 frequencies of an instrument with smooth
+ * error terms: short, open, and a load whose reflection follows generating
+ * function fn and is tabulated on its own n-knot grid (covering the band).
+ * The load is given (role 0) as the vector parameter itself or (role 1) as
+ * a parameter correlated with the vector: three standards, three error terms,
+ * so the solved load can only be the vector's value at each calibration
+ * frequency, and a DUT is corrected exactly - provided the solver reads the
+ * vector at the calibration frequency it is working on.
+ */
+static void run_r5(int n, int spacing, int fn, int role, vf_result *r)
+{
+    double cf[7], kf[8];
+    double complex kg[8];
+    vnacal_t *vcp;
+    vnacal_new_t *vnp = NULL;
+    vnadata_t *vdp = NULL;
+    char sig[120];
+    static const double sg[1] = { 0.05 };
+    double complex m[7], *mp[1] = { m };
+    int hv, hl, ci;
+
+    vf_desc(r, "R5 one-port calibration on 7 frequencies; the load follows "
+	    "'%s', tabulated on %d knots (spacing %d), given as %s",
+	    func_name[fn], n, spacing, role == 0 ? "the vector parameter" :
+	    "a parameter correlated with the vector");
+    if (n < func_min_m[fn] || n > 7 || n < 2) {
+	vf_outcome(r, "R5 n/a: function outside the window's class, or a "
+		"single knot that cannot cover the band");
+	return;
+    }
+    make_knots(n, spacing, kf);
+    /* calibration frequencies strictly inside the knot span, none on a knot */
+    for (int i = 0; i < 7; ++i)
+	cf[i] = 1.0e9 + 1.0e9 * (0.035 + 0.93 * i / 6.0);
+    for (int i = 0; i < n; ++i)
+	kg[i] = gen(fn, kf[i]);
+    vf_errlog_reset(&elog);
+    vcp = vnacal_create((vnaerr_error_fn_t *)vf_errfn, &elog);
+    if (vcp == NULL)
+	return;
+    hv = vnacal_make_vector_parameter(vcp, kf, n, kg);
+    hl = role == 0 ? hv :
+	vnacal_make_correlated_parameter(vcp, hv, NULL, 1, sg);
+    vnp = vnacal_new_alloc(vcp, VNACAL_T8, 1, 1, 7);
+    if (hv < 0 || hl < 0 || vnp == NULL ||
+	    vnacal_new_set_frequency_vector(vnp, cf) != 0) {
+	vf_fail(r, "r5:setup", "set-up failed: %s",
+		elog.count ? elog.msg[0] : "");
+	goto out;
+    }
+#define R5_MEAS(gamma, f) ({ \
+	double x_ = ((f) - 1e9) / 1e9; \
+	double complex ed_ = 0.05 + 0.02 * I + 0.03 * x_, \
+	    er_ = 0.9 * cexp(-0.7 * I * x_), es_ = 0.1 - 0.05 * I * x_; \
+	ed_ + er_ * (gamma) / (1.0 - es_ * (gamma)); })
+    for (int st = 0; st < 3; ++st) {
+	for (int i = 0; i < 7; ++i) {
+	    double complex g = st == 0 ? -1.0 : st == 1 ? 1.0 : gen(fn, cf[i]);
+	    m[i] = R5_MEAS(g, cf[i]);
+	}
+	if (vnacal_new_add_single_reflect_m(vnp, mp, 1, 1, st == 0 ?
+		    VNACAL_SHORT : st == 1 ? VNACAL_OPEN : hl, 1) != 0) {
+	    vf_fail(r, "r5:add", "standard %d refused: %s", st,
+		    elog.count ? elog.msg[0] : "");
+	    goto out;
+	}
+    }
+    ++r->transitions;
+    if (vnacal_new_solve(vnp) != 0) {
+	snprintf(sig, sizeof(sig), "r5:solve:role%d", role);
+	vf_fail(r, sig, "vnacal_new_solve failed: %s",
+		elog.count ? elog.msg[0] : "");
+	goto out;
+    }
+    double worst = 0;
+    if (role != 0) {
+	for (int i = 0; i < 7; ++i) {
+	    double complex got = vnacal_get_parameter_value(vcp, hl, cf[i]);
+	    double e = cabs(got - gen(fn, cf[i]));
+	    if (!(e <= worst)) worst = e;
+	    if (!(e <= 1e-7)) {
+		snprintf(sig, sizeof(sig), "r5:solved-value:role%d", role);
+		vf_fail(r, sig, "the solved load at %.6g Hz is %.9g%+.9gj, "
+			"the tabulated function gives %.9g%+.9gj there",
+			cf[i], creal(got), cimag(got), creal(gen(fn, cf[i])),
+			cimag(gen(fn, cf[i])));
+		goto out;
+	    }
+	}
+    }
+    ci = vnacal_add_calibration(vcp, "r5", vnp);
+    vdp = vnadata_alloc((vnaerr_error_fn_t *)vf_errfn, &elog);
+    if (ci < 0 || vdp == NULL)
+	goto out;
+    for (int i = 0; i < 7; ++i)
+	m[i] = R5_MEAS(0.3 - 0.45 * I + 0.2 * ((cf[i] - 1e9) / 1e9), cf[i]);
+#undef R5_MEAS
+    if (vnacal_apply_m(vcp, ci, cf, 7, mp, 1, 1, vdp) != 0) {
+	vf_fail(r, "r5:apply", "vnacal_apply_m failed: %s",
+		elog.count ? elog.msg[0] : "");
+	goto out;
+    }
+    for (int i = 0; i < 7; ++i) {
+	double complex want = 0.3 - 0.45 * I + 0.2 * ((cf[i] - 1e9) / 1e9);
+	double e = cabs(vnadata_get_cell(vdp, i, 0, 0) - want);
+	if (!(e <= worst)) worst = e;
+	if (!(e <= 1e-7)) {
+	    snprintf(sig, sizeof(sig), "r5:dut:role%d", role);
+	    vf_fail(r, sig, "DUT at %.6g Hz corrected with error %.3e", cf[i],
+		    e);
+	    goto out;
+	}
+    }
+    r->nontrivial = 1;
+    vf_outcome(r, "R5 role %d err%s", role, worst < 1e-13 ? "<1e-13" :
+	    worst < 1e-10 ? "<1e-10" : "<1e-7");
+out:
+    if (vdp != NULL)
+	vnadata_free(vdp);
+    if (vnp != NULL)
+	vnacal_new_free(vnp);
+    vnacal_free(vcp);
+}
+
 /* ---- case space ------------------------------------------------------ */
 
 #define N_R0 (7 * NSPACING * NFUNC)
@@ -669,13 +795,14 @@ out:
 static int n_r2(int tier) { return 8 * 2 * (tier ? 3 : 1); }
 #define N_R3 (NGRIDN * NSPACING * 2 * 2 * 4)
 #define N_R4 (NGRIDN * NSPACING * 2 * 3)
+#define N_R5 (NGRIDN * NSPACING * 7 * 2)
 /* 4 is also the number of calibration frequencies of R3: a grid of the
    same length and span that is still a different grid */
 static const int grid_n[NGRIDN] = { 1, 2, 3, 4, 5, 7 };
 
 static long count(int tier)
 {
-    return N_R0 + N_R1 + n_r2(tier) + N_R3 + N_R4;
+    return N_R0 + N_R1 + n_r2(tier) + N_R3 + N_R4 + N_R5;
 }
 
 static void run(int tier, long idx, vf_result *r)
@@ -701,12 +828,17 @@ static void run(int tier, long idx, vf_result *r)
 	int fn = vf_digit(&idx, 2);
 	int sp = vf_digit(&idx, NSPACING);
 	run_r3(grid_n[idx], sp, fn, which, miss, r);
-    } else {
-	idx -= N_R3;
+    } else if ((idx -= N_R3) < N_R4) {
 	int ov = vf_digit(&idx, 3);
 	int fn = vf_digit(&idx, 2);
 	int sp = vf_digit(&idx, NSPACING);
 	run_r4(grid_n[idx], sp, fn, ov, r);
+    } else {
+	idx -= N_R4;
+	int role = vf_digit(&idx, 2);
+	int fn = vf_digit(&idx, 7);
+	int sp = vf_digit(&idx, NSPACING);
+	run_r5(grid_n[idx], sp, fn, role, r);
     }
     vf_exec_end(r, mark);
 }
